@@ -8,6 +8,8 @@ package main
 
 import (
 	"fmt"
+	"math"
+	"math/big"
 	"os"
 	"path/filepath"
 	"regexp"
@@ -126,13 +128,31 @@ func genEx(r *Rng, d int, nPrev int, numericPrev []int, allowSpecial bool) *ex {
 	}
 	op := r.Intn(len(binOps))
 	if op == 5 {
-		// ** : small literal operands, or a special operand (NaN / Infinity / reference) as base or exponent
+		// ** : kept in the domain where the folded result is exact (integer results below 2^53, or
+		// NaN / +-Infinity / 0 / 1): large finite results of math.Pow are some ulps away from V8's
+		// (known finding C06-M / C03-G, replayed separately)
 		a, b := &ex{kind: "num", z: int64(r.Range(-2, 12))}, &ex{kind: "num", z: int64(r.Range(0, 10))}
-		if r.Chance(30) {
-			b = genEx(r, 0, nPrev, numericPrev, true)
+		special := func() *ex {
+			switch r.Intn(3) {
+			case 0:
+				return &ex{kind: "nan"}
+			case 1:
+				return &ex{kind: "inf"}
+			default:
+				return &ex{kind: "neg", a: &ex{kind: "inf"}}
+			}
 		}
-		if r.Chance(15) {
-			a = genEx(r, 0, nPrev, numericPrev, true)
+		switch r.Intn(10) {
+		case 0, 1:
+			b = special()
+		case 2:
+			a = special()
+		case 3:
+			// any earlier member as base, with an exponent whose result is exact for every base
+			if len(numericPrev) > 0 {
+				a = &ex{kind: "ref", name: numericPrev[r.Intn(len(numericPrev))]}
+				b = []*ex{{kind: "num", z: 0}, {kind: "num", z: 1}, {kind: "nan"}}[r.Intn(3)]
+			}
 		}
 		return &ex{kind: "bin", op: 5, a: a, b: b}
 	}
@@ -532,7 +552,7 @@ $p("merge", M.A, M.B, M.C, M.D, M[M.C], W.In.Y, W.y, W.In[W.In.X]);
 			cases = append(cases, rtCase{kind: "enum-merge-and-namespace", ts: ts, ref: ref})
 		default: // a typed program behaves like its untyped counterpart (execution, complements the byte comparison)
 			js := NewJSGen(r, AllJSFeatures())
-			g := &tsgen{r: r, js: js, tg: &tgen{r: r, ops: map[string]int{}}, kinds: map[string]int{}}
+			g := &tsgen{r: r, js: js, tg: &tgen{r: r, ops: map[string]int{}}, kinds: map[string]int{}, noAsync: true}
 			var parts []interface{}
 			parts = append(parts, js.Program(r.Range(1, 3)))
 			for k := r.Range(1, 3); k > 0; k-- {
@@ -559,6 +579,29 @@ func knownDefectReplays(st *Stats) {
 	} else {
 		st.Fail("enum-pow-special-cases-differ-from-ecmascript", map[string]string{"typescript": tsB}, e, "accepted")
 	}
+	// M (C03-G family, not repairable minimally): a large finite folded ** is some ulps away from V8's result
+	tsM := "enum E { A = 9 ** 100 }\n$p(\"A\", E.A);\n"
+	if out, e := compileTS(rtCase{ts: tsM}); e == "" {
+		res, err := RunNodeScripts([]string{out, "$p(\"A\", 9 ** 100);\n"}, 3000)
+		if err == nil && !res[0].Same(res[1]) {
+			st.Fail("known-M-enum-pow-finite-result-ulps", map[string]string{"scenario": "known-M", "typescript": tsM, "esbuild_output": out}, res[0].String(), res[1].String())
+		}
+	}
+	// math.Pow is exact wherever the enum model claims a value: integer results with |x ** y| <= 2^53
+	for x := int64(-12); x <= 12; x++ {
+		for y := int64(0); y <= 60; y++ {
+			exact := new(big.Int).Exp(big.NewInt(x), big.NewInt(y), nil)
+			if new(big.Int).Abs(exact).Cmp(new(big.Int).Lsh(big.NewInt(1), 53)) > 0 {
+				continue
+			}
+			got := math.Pow(float64(x), float64(y))
+			want, _ := new(big.Float).SetInt(exact).Float64()
+			if got != want {
+				st.Fail("math-pow-not-exact-in-the-modelled-domain", map[string]int64{"base": x, "exponent": y}, got, want)
+			}
+		}
+	}
+	st.Note("pow-exact-domain", "grid", true)
 	// I (fixed in /repo by 41c6538, must pass now): an assignment to a variable exported by a sibling block of a merged namespace is not rewritten to a property
 	tsI := "namespace N { export let b = 1; }\nnamespace N { b = b + 1; b++; ({ b } = { b: b * 2 }); [b] = [b + 1]; }\n$p(\"b\", N.b, typeof b);\n"
 	refI := "var N = {}; N.b = 1; N.b = N.b + 1; N.b++; N.b = N.b * 2; N.b = N.b + 1;\n$p(\"b\", N.b, typeof b);\n"
